@@ -32,7 +32,7 @@ HARNESS = 'c05.cpp'
 SOURCES = ['src/transform/estimation/FindRigidTransformationByLeastSquares.cpp', 'src/regression/leastsquares/LeastSquares.cpp',
            'src/pointset/algorithms/PreconditionedPointSet.cpp', 'src/pointset/algorithms/PointSetPreconditioner.cpp',
            'src/pointset/algorithms/Correspondence.cpp']
-PROOF_MODULES = ['RomeaProofs.Properties.C05']
+PROOF_MODULES = ['RomeaProofs.Properties.C05', 'RomeaProofs.Bridge.C05', 'RomeaProofs.Bridge.C05Cor']
 TRUSTED = ['Eigen JacobiSVD is a parameter of the solver model with the contract IsSVD (RomeaProofs/Properties/C07.lean); the driver '
            'plugs in a Lean Float Jacobi iteration and the matrices are compared within a cond^2-scaled tolerance',
            'the probe judges the C++ outputs against an independent Householder-QR solution computed in Python doubles']
@@ -43,6 +43,44 @@ ASSUMPTIONS = ['theorems are over the reals (no rounding); float/double behaviou
 EXPLANATION = ('Lean proofs (linearised distance, normal equations / minimality via C07, exact translation, second-order rotation residual, '
                'invariances) on the model + differential correspondence over eight point types + QR-based probe')
 HANG_SECS = 30
+
+# ------------------------------------------------------------------ stage G: the anchored functions themselves, translated (DESIGN.md 2.5b)
+_PT = [('v2f', 'Eigen::Matrix<float, 2, 1, 0>'), ('v2d', 'Eigen::Matrix<double, 2, 1, 0>'),
+       ('v3f', 'Eigen::Matrix<float, 3, 1, 0>'), ('v3d', 'Eigen::Matrix<double, 3, 1, 0>'),
+       ('h2f', 'romea::core::HomogeneousCoordinates2<float>'), ('h2d', 'romea::core::HomogeneousCoordinates2<double>'),
+       ('h3f', 'romea::core::HomogeneousCoordinates3<float>'), ('h3d', 'romea::core::HomogeneousCoordinates3<double>')]
+_LS_HIDDEN = ['dataSize_', 'estimateSize_', 'Ac_', 'Bc_', 'W_', 'JtJ_', 'inverseJtJ_', 'JtY_']
+BRIDGE_SPEC = {
+    'id': 'C05',
+    'sources': ['src/transform/estimation/FindRigidTransformationByLeastSquares.cpp'],
+    # `auto & J = leastSquares_.getJ()`: the getters are member templates defined in LeastSquares.cpp; parsing that file with clang costs 7.5 s
+    # (every explicit instantiation of the solver), so their bodies are checked on the CURRENT text of the source instead: `return J_;` /
+    # `return Y_;` and nothing else (tools/cxx2lean.py `source_getter`); anything else makes `estimate_` untranslatable
+    'source_getters': {'getJ': {'cls': 'LeastSquares', 'member': 'J_', 'source': 'src/regression/leastsquares/LeastSquares.cpp'},
+                       'getY': {'cls': 'LeastSquares', 'member': 'Y_', 'source': 'src/regression/leastsquares/LeastSquares.cpp'}},
+    'fold_constant_conditions': True,      # `if (CARTESIAN_DIM == 2) … else …` is decided per instantiation
+    # the solver stays an ORACLE, as in the model (C07's `Env`): `setDataSize(n)` leaves unspecified contents in `J_`, `Y_` (functions of n:
+    # the model's `junkJ`, `junkY`), `estimateUsingSVD()` is an uninterpreted function of the current `J_`, `Y_` (and of the solver's other
+    # members, which no translated function may read); dynamic-size matrices are functional arrays (tools/cxx2lean.py, phase 3)
+    'oracles': {'setDataSize': {'writes': ['J_', 'Y_'], 'hides': _LS_HIDDEN},
+                'estimateUsingSVD': {'reads': ['J_', 'Y_'], 'hides': _LS_HIDDEN}},
+    'functions':
+        [{'cxx': 'FindRigidTransformationByLeastSquares::estimate_', 'record': 'FindRigidTransformationByLeastSquares<%s>' % t,
+          'sig': 'NormalSet<%s> &)' % t, 'suffix': '_aligned_' + s_} for s_, t in _PT] +
+        [{'cxx': 'FindRigidTransformationByLeastSquares::estimate_', 'record': 'FindRigidTransformationByLeastSquares<%s>' % t,
+          'sig': 'Correspondence> &)', 'suffix': '_indexed_' + s_} for s_, t in _PT] +
+        [{'cxx': 'FindRigidTransformationByLeastSquares::find', 'record': 'FindRigidTransformationByLeastSquares<%s>' % t,
+          'sig': '(const PointSet<%s> &, const PointSet<%s> &, const NormalSet<%s> &)' % (t, t, t), 'suffix': '_aligned_' + s_} for s_, t in _PT] +
+        [{'cxx': 'FindRigidTransformationByLeastSquares::find', 'record': 'FindRigidTransformationByLeastSquares<%s>' % t,
+          'sig': '(const PointSet<%s> &, const PointSet<%s> &, const NormalSet<%s> &, const std::vector<Correspondence> &)' % (t, t, t),
+          'suffix': '_indexed_' + s_} for s_, t in _PT],
+}
+
+
+def regen(ctx):
+    import bridge
+    return bridge.regen_bridge(ctx, BRIDGE_SPEC)
+
 
 TYPES = {'c2d': (2, 2, 'd'), 'c3d': (3, 3, 'd'), 'h2d': (2, 3, 'd'), 'h3d': (3, 4, 'd'),
          'c2f': (2, 2, 'f'), 'c3f': (3, 3, 'f'), 'h2f': (2, 3, 'f'), 'h3f': (3, 4, 'f')}
